@@ -132,7 +132,11 @@ func c20Manager() *RBACManager {
 		tokenCache: map[int64]*tokenRBACData{}, permCache: map[permissionCacheKey]*permissionCacheEntry{}}
 	// decisions cached before the mutation, for two tokens
 	for _, id := range []int64{1, 2} {
-		rm.tokenCache[id] = &tokenRBACData{}
+		// the two caches are evicted and expired independently: a decision can outlive the
+		// token data it was computed from
+		if !zz.Bool("token_data_evicted_" + string(rune('0'+id))) {
+			rm.tokenCache[id] = &tokenRBACData{}
+		}
 		rm.permCache[permissionCacheKey{tokenID: id, database: "prod", permission: "write"}] = &permissionCacheEntry{result: &PermissionCheckResult{Allowed: true, Source: "rbac"}, expiresAt: time.Now().Add(time.Hour)}
 	}
 	return rm
